@@ -83,6 +83,8 @@ def run_request(served, supported, contexts, probe, max_len=16384, called='SRV',
     ae = get_ae(served, tuple(supported), scu_rest)
     sup = [TS[i] for i in supported]
     salt = len(contexts) + len(served) + sum(supported) + (probe or 0)
+    meanwhile = bool(contexts) and salt % 4 == 1
+    case['another_association_meanwhile'] = meanwhile
     spec = fd.rq_spec([(cid, ABS[a], [TS[i] for i in tl]) for cid, a, tl in contexts], max_len, called, calling,
                       app, extra_subs, ver=VERSIONS[salt % len(VERSIONS)], reserved=0x2A2A if salt % 3 == 0 else 0)
     expected = []
@@ -91,11 +93,21 @@ def run_request(served, supported, contexts, probe, max_len=16384, called='SRV',
         expected.append((cid, a, a in served and bool(common), common))
     accepted_ids = [cid for cid, a, ok, _ in expected if ok]
 
+    rot = {'A': 'B', 'B': 'C', 'C': 'Z', 'Z': 'A'}
+
+    def other_association():
+        # ANOTHER peer negotiates with the same entity while this association is open: same context ids, other
+        # abstract syntaxes, syntax lists reversed - its outcome is its own
+        ospec = fd.rq_spec([(cid, ABS[rot[a]], [TS[i] for i in reversed(tl)]) for cid, a, tl in contexts], 4096, called, 'OTHER', app)
+        fd.run_acceptor(ae, [lambda d: d.push_pdu(ospec)])
+
     def plan(dul):
         dul.push_pdu(spec)
         seen = set()
         for cid, a, ok, _ in expected:
             if ok and cid not in seen:
+                if meanwhile and not seen:
+                    dul.inbox.append(lambda: other_association())
                 seen.add(cid)
                 dul.push_msg({0x0002: ABS[a], 0x0100: 0x0030, 0x0110: cid}, None, cid)
         if probe is not None:
